@@ -97,7 +97,7 @@ class St:
 class DH(System):
     name = 'c06.dH'
     def warm(self): _load()
-    def reset_globals(self): fx.reset_globals()
+    def reset_globals(self): rc.reset_reaction_globals()
     def depth(self, tier): return 1
 
     def configs(self, tier, seed):
@@ -129,7 +129,7 @@ class DH(System):
         return st
 
     def actions(self, st):
-        return [('dH', X) for X in (0.0, 0.3, 1.0)] + [('item', X) for X in (0.3,)]
+        return [('dH', X) for X in (0.0, 0.3, 1.0)] + [('item', X) for X in (0.3,)] + [('held-setX', 0.3), ('sys-setX', 0.3)]
 
     def step(self, st, a):
         t = fx.tmo()
@@ -139,6 +139,39 @@ class DH(System):
         match = dict(op=op, tagged=asg is not None, basis='wt' if wt else 'mol')
         want = model_dH(ri, r, X, st.assign, wt)
         rxn = st.rxn
+        if op in ('held-setX', 'sys-setX'):
+            # handles (items, a slice) are taken FIRST, then the conversions are re-specified on the set (or through a
+            # ReactionSystem that contains it): every handle must report the heat of reaction at the new conversion, and a
+            # conversion written through an old handle must reach the set
+            rxn.X = 0.9
+            other = rxn.copy(); other.X = 0.75
+            P = t.ParallelReaction([other, rxn])
+            held = list(P); byindex = P[1]; sl = P[0:2]
+            try:
+                if op == 'held-setX': P.X = [0.6, X]
+                else:
+                    Y = t.ReactionSystem(P, rxn.copy())
+                    Y.X = [[0.6, X], 0.5]
+                views = dict(held_iter=held[1].dH, held_index=byindex.dH, slice_item=sl[1].dH, fresh=P[1].dH, sibling=held[0].dH)
+            except Exception as e:
+                raise Violation('unexpected-exception', f'{type(e).__name__}: {e}', match=dict(match, exc=type(e).__name__))
+            wants = dict(held_iter=want, held_index=want, slice_item=want, fresh=want, sibling=model_dH(ri, r, 0.6, st.assign, wt))
+            for k_, got in views.items():
+                if np.ndim(got) != 0 or abs(float(got) - wants[k_]) > TOLERANCES['dH_rtol'] * max(abs(wants[k_]), 1.0):
+                    raise Violation('dH-value', f'after set.X = [0.6, {X}] the dH seen through {k_} is {np.asarray(got).tolist()!r}, expected {wants[k_]!r}',
+                                    match=dict(match, how='stale-handle', seen=k_))
+            held[1].X = 0.45
+            w2 = model_dH(ri, r, 0.45, st.assign, wt)
+            for k_, got in dict(fresh=P[1].dH, slice_item=sl[1].dH, set_X=None).items():
+                if k_ == 'set_X':
+                    if float(P.X[1]) != 0.45:
+                        raise Violation('dH-value', f'a conversion written through a handle taken before set.X = ... does not reach the set (X[1] = {P.X[1]})',
+                                        match=dict(match, how='stale-handle', seen='set_X'))
+                elif abs(float(got) - w2) > TOLERANCES['dH_rtol'] * max(abs(w2), 1.0):
+                    raise Violation('dH-value', f'after held_item.X = 0.45 the dH seen through {k_} is {float(got)!r}, expected {w2!r}',
+                                    match=dict(match, how='stale-handle', seen=k_))
+            st.last = (a, fx.r12(want))
+            return ('dH-handles', fx.r12(want))
         rxn.X = X
         obj = rxn
         if op == 'item':
@@ -167,6 +200,91 @@ class DH(System):
         pairs = tuple(sorted({(_C[k].phase_ref, p) for k, p in asg.items()})) if asg else ()
         return repr((a[0], st.config[3], pairs, a[1] == 0))
 
+
+
+# =========================================================================================================
+# (a') dH of sums / reductions of phase-tagged reactions in which one chemical occurs in two phases
+
+class DHSum(System):
+    """Two routes of the same stoichiometry on the same reactant that differ in the phase of ONE species (e.g. water leaving as
+    liquid in one route and as vapour in the other), both declared with `phases='gls'` so that they can be combined.  The heat of
+    reaction is linear in the extent vector, so   (a + b).dH == a.dH + b.dH   (same for +=, for ParallelReaction([a,b]).reduce(), and
+    ((a + b) - b).dH == a.dH), each compared with the model  X * sum nu (Hf + latent(phase))  of the routes."""
+    name = 'c06.dHsum'
+    def warm(self): _load()
+    def reset_globals(self): rc.reset_reaction_globals()
+    def depth(self, tier): return 1
+
+    def configs(self, tier, seed):
+        cfgs = []
+        for ri in range(len(MENU)):
+            species = list(MENU[ri][1])
+            for r in rc.reactants_of(ri):
+                for sp in species:
+                    if sp == r: continue                   # the two routes must share the reactant slot (phase, chemical)
+                    for p2 in 'slg':
+                        if p2 == rc.NAT_PHASE[sp]: continue
+                        for route in ('mol', 'wt-set'):
+                            if tier == 'quick' and route != 'mol' and r != rc.reactants_of(ri)[0]: continue
+                            cfgs.append((ri, r, sp, p2, route))
+        k = seed % len(cfgs)
+        return cfgs[k:] + cfgs[:k]
+
+    def build(self, config):
+        t = fx.tmo()
+        ri, r, sp, p2, route = config
+        st = St(); st.config = config
+        d = MENU[ri][1]
+        st.asg_a = {k: rc.NAT_PHASE[k] for k in d}
+        st.asg_b = dict(st.asg_a); st.asg_b[sp] = p2
+        def mk(asg, X):
+            rx = t.Reaction(rc.as_string(d, asg), reactant=r, X=X, chemicals=_chems, phases='gls')
+            if route != 'mol': rx.basis = 'wt'
+            return rx
+        st.a = mk(st.asg_a, 0.3); st.b = mk(st.asg_b, 0.5)
+        st.last = None
+        return st
+
+    def actions(self, st):
+        return [('routes',), ('add',), ('radd',), ('iadd',), ('sub-back',), ('reduce',)]
+
+    def step(self, st, a):
+        t = fx.tmo()
+        ri, r, sp, p2, route = st.config
+        wt = route != 'mol'
+        op = a[0]
+        match = dict(op=op, basis='wt' if wt else 'mol', phases=''.join(sorted((rc.NAT_PHASE[sp], p2))))
+        wa = model_dH(ri, r, 0.3, st.asg_a, wt); wb = model_dH(ri, r, 0.5, st.asg_b, wt)
+        try:
+            if op == 'routes': pairs = [(st.a.dH, wa), (st.b.dH, wb)]
+            elif op == 'add': pairs = [((st.a + st.b).dH, wa + wb)]
+            elif op == 'radd': pairs = [((st.b + st.a).dH, wa + wb)]
+            elif op == 'iadd':
+                c = st.a.copy(); c += st.b
+                pairs = [(c.dH, wa + wb)]
+            elif op == 'sub-back': pairs = [(((st.a + st.b) - st.b).dH, wa)]
+            else:
+                red = t.ParallelReaction([st.a, st.b]).reduce()
+                items = list(red)
+                if len(items) != 1:
+                    raise Violation('dH-value', f'reduce() of two routes on one reactant has {len(items)} members', match=dict(match, how='items'))
+                pairs = [(items[0].dH, wa + wb)]
+        except Violation: raise
+        except Exception as e:
+            raise Violation('unexpected-exception', f'{type(e).__name__}: {e}', match=dict(match, exc=type(e).__name__))
+        for got, want in pairs:
+            if np.ndim(got) != 0 or abs(float(got) - want) > 1e-9 * max(abs(want), 1.0):
+                raise Violation('dH-value', f'{op}: dH = {np.asarray(got).tolist()!r}; the routes give {want!r} '
+                                f'({sp} as {rc.NAT_PHASE[sp]} in one route, as {p2} in the other)', match=dict(match, how='two-phase-species'),
+                                residual=abs(float(np.ravel(got)[0]) - want) / max(abs(want), 1.0))
+        st.last = (a, fx.r12(pairs[0][1]))
+        return (op, fx.r12(pairs[0][1]))
+
+    def canon(self, st): return (st.config, rc.rxn_digest(st.a), rc.rxn_digest(st.b), st.last)
+    def nontrivial(self, st, a, obs): return a[0] != 'routes'
+    def outcome(self, st, a, obs):
+        ri, r, sp, p2, route = st.config
+        return repr((a[0], route, _C[sp].phase_ref, rc.NAT_PHASE[sp], p2))
 
 # =========================================================================================================
 # reaction objects for the stream clauses
@@ -288,7 +406,7 @@ def fed_amounts(tree, n0, wt):
 class Iso(System):
     name = 'c06.iso'
     def warm(self): _load()
-    def reset_globals(self): fx.reset_globals()
+    def reset_globals(self): rc.reset_reaction_globals()
     def depth(self, tier): return 1
     adiabatic = False
 
@@ -313,9 +431,18 @@ class Iso(System):
         xps = xps + ('zero', 'nofeed')
         return phases, Ts, xps
 
-    def actions(self, st):
+    def _cases(self, st):
         phases, Ts, xps = self._grid(st)
-        return [(ph, T, xp) for ph in phases for T in Ts for xp in xps]
+        cases = [(ph, T, xp) for ph in phases for T in Ts for xp in xps]
+        # the same stream defined on a RE-ORDERED property package (the reaction keeps its own `chemicals=`)
+        for ph in phases:
+            for T in ((350.0,) if self.tier == 'quick' else Ts):
+                for xp in (('p3',) if self.tier == 'quick' else ('p3', 'one')):
+                    cases.append((ph + 'R', T, xp))
+        return cases
+
+    def actions(self, st):
+        return self._cases(st)
 
     def _run(self, st, a, Q=None):
         kind, items, tag, route = st.config
@@ -323,13 +450,16 @@ class Iso(System):
         wt = route != 'mol'
         Xs = xpattern(xp, len(items))
         obj, tree, rx, refs = make_obj(st.config, Xs)
+        other_pkg = ph.endswith('R')
+        ph = ph[:-1] if other_pkg else ph
         n0, phases, single = feed_for(st.config, ph)
         if xp == 'nofeed':
             for ri, r in items: n0[..., POS[r]] = 0.0
         tk = ('S.g' if ph == 'g' else 'S.l') if tag == 'none' else 'M'
+        if other_pkg: tk = {'S.g': 'S.gR', 'S.l': 'SR', 'M': 'MR'}[tk]
         tgt = Target(tk, n0, phases, T=T, P=P_REF)
         s = tgt.stream
-        match = dict(kind=kind, tagged=tag != 'none', basis='wt' if wt else 'mol', feed=ph)
+        match = dict(kind=kind, tagged=tag != 'none', basis='wt' if wt else 'mol', feed=ph, package='other' if other_pkg else 'own')
         try:
             H0 = float(s.Hnet)
         except Exception as e:
@@ -408,15 +538,13 @@ class Adiabatic(Iso):
     name = 'c06.adiabatic'
 
     def actions(self, st):
-        phases, Ts, xps = self._grid(st)
         Qs = (0.0, 1e4, -1e4, 'default')
         acts = []
-        for ph in phases:
-            for T in Ts:
-                for xp in xps:
-                    for Q in Qs:
-                        if self.tier == 'quick' and Q == 'default' and T != 350.0: continue
-                        acts.append((ph, T, xp, Q))
+        for ph, T, xp in self._cases(st):
+            for Q in Qs:
+                if self.tier == 'quick' and Q == 'default' and T != 350.0: continue
+                if ph.endswith('R') and Q in (0.0, 'default'): continue
+                acts.append((ph, T, xp, Q))
         return acts
 
     def step(self, st, a):
@@ -468,7 +596,7 @@ class History(System):
     name = 'c06.history'
     nontrivial_per_config = True
     def warm(self): _load()
-    def reset_globals(self): fx.reset_globals()
+    def reset_globals(self): rc.reset_reaction_globals()
     def depth(self, tier): return 3 if tier == 'quick' else 4
     def configs(self, tier, seed):
         k = seed % len(HIST)
@@ -543,4 +671,4 @@ class History(System):
     def outcome(self, st, a, obs): return repr((st.config[0], st.config[2], st.config[3], a[0], obs[0], st.count >= 2))
 
 
-SYSTEMS = [DH(), Iso(), Adiabatic(), History()]
+SYSTEMS = [DH(), DHSum(), Iso(), Adiabatic(), History()]
